@@ -545,8 +545,8 @@ func main() {
 	hx.Main(hx.Family{
 		Name:     "c40",
 		Rule:     "2-5 rounds per case, each 2-4 concurrent requests (60% evaluate-to-change with 0-3 rules, half of the rules guarded; 10% query; 20% delete-world; 10% list-worlds) on 1-2 world IDs from one goroutine per request against a real NewB6Service (-race); 2/3 of the rounds hold every change request in the gap between its read phase and its write phase until all have read; generated rounds are conflict-free (guards only read keys no request of the round writes); the corpus holds the write-skew witness and the orphaned-world case. non-trivial = at least two change requests in the case",
-		Quick:    400,
-		Thorough: 6000,
+		Quick:    300,
+		Thorough: 3000,
 		Corpus:   corpus,
 		Case:     runCase,
 	})
